@@ -92,6 +92,15 @@ def w_random(seeds):
             m = valtrace.mutate(root, rnd, t, PLANT)
             if m:
                 muts.append(m)
+        if seed % 4 == 1:
+            Node.store.clear()                         # a live tree none of whose nodes is registered (the registry is not the tree)
+            desc["tree"] = "registry emptied after building"
+        elif seed % 4 == 2:
+            try:
+                root = valtrace.reid(root)             # every node carries the same id
+                desc["tree"] = "all nodes share one id"
+            except Exception:  # noqa: BLE001 - a mutated tree the JSON codec cannot carry (non-string attribute values): keep it as built
+                pass
         ev = valtrace.observe_tree(root)
         desc["mutations"] = muts
         ev["desc"] = desc
